@@ -948,6 +948,10 @@ func runC02(c *Ctx) {
 	c.Lap("variants")
 	c.Res.Extra["cpu_seconds_model_requests"] = float64(c02TModel) / 1e9
 	c.Res.Extra["cpu_seconds_fc_in_process"] = float64(c02TFc) / 1e9
+	if c.Replay == "" {
+		c02ResolverLoopCorrespondence(c, rng.Fork(), ors, pool)
+		c.Lap("resolver-loop")
+	}
 	for i, p := range progs {
 		nontrivial := false
 		for _, f := range p.Funcs {
